@@ -66,7 +66,9 @@ func (g *Gen) VerifyUnit(ct *Contract) (res *UnitResult) {
 			panic(r)
 		}
 	}()
+	g.reg.emitFact = func(f string) { u.assumeRaw(Term{f, SBool}) }
 	u.run()
+	g.reg.emitFact = nil
 	res.Obs = u.obs
 	res.Assumed = u.assumed
 	for k := range u.dropped {
